@@ -183,29 +183,41 @@ Section Copies.
   Definition cinv (st : dstate) (ps : list prog) (acc : list out) : Prop :=
     fb_down st /\ strict st /\
     ((Forall prew ps /\ (length (ds_inbox st) <= inbox0)%nat /\ downs acc = []) \/
+     (* the counter had been accepted before any of these handlers ran: none of them will get anywhere *)
+     (past st /\ Forall prew ps /\ (length (ds_inbox st) <= inbox0)%nat /\ downs acc = []) \/
      (past st /\ exists i k w, (length (ds_inbox st) + i <= S inbox0)%nat /\ (length (downs acc) + k <= 1)%nat /\
         (exists p, nth_error ps w = Some p /\ lim i k p) /\
         (forall j p, j <> w -> nth_error ps j = Some p -> prew p))).
 
   Lemma cinv_harmless st ps acc : cinv st ps acc -> Forall harmless_halt ps.
   Proof.
-    intros (_ & _ & [(W & _) | (_ & i & k & w & _ & _ & (pw & Hw & Lw) & Ho)]).
+    intros (_ & _ & [(W & _) | [(_ & W & _) | (_ & i & k & w & _ & _ & (pw & Hw & Lw) & Ho)]]).
+    - eapply Forall_impl; [|exact W]. apply prew_halt.
     - eapply Forall_impl; [|exact W]. apply prew_halt.
     - apply Forall_forall. intros p Hin. apply In_nth_error in Hin. destruct Hin as [j Hj].
       destruct (Nat.eq_dec j w) as [->|Hne]; [rewrite Hw in Hj; injection Hj as <-; eapply lim_halt; exact Lw | eapply prew_halt, Ho; eauto].
   Qed.
-  Lemma cinv_bound st ps acc : cinv st ps acc -> (length (ds_inbox st) <= S inbox0)%nat /\ (length (downs acc) <= 1)%nat.
-  Proof. intros (_ & _ & [(_ & Hi & Hd) | (_ & i & k & w & Hi & Hk & _)]); [rewrite Hd; cbn; lia | lia]. Qed.
+  (* what holds when the run stops, wherever it stops: at most one row and one frame more; and either nothing at all
+     has happened, or the stored counter is past c (so that whoever comes later is refused) *)
+  Definition cpost (st : dstate) (acc : list out) : Prop :=
+    fb_down st /\ strict st /\ (length (ds_inbox st) <= S inbox0)%nat /\ (length (downs acc) <= 1)%nat /\
+    (((length (ds_inbox st) <= inbox0)%nat /\ downs acc = []) \/ past st).
+  Lemma cinv_bound st ps acc : cinv st ps acc -> cpost st acc.
+  Proof.
+    intros (Hfb & Hs & [(_ & Hi & Hd) | [(Hp & _ & Hi & Hd) | (Hp & i & k & w & Hi & Hk & _)]]); (split; [exact Hfb|]); (split; [exact Hs|]).
+    - rewrite Hd. cbn. split; [lia|]. split; [lia|]. left. auto.
+    - rewrite Hd. cbn. split; [lia|]. split; [lia|]. left. auto.
+    - split; [lia|]. split; [lia|]. now right.
+  Qed.
 
   Theorem interleaveN_copies : forall fuel sched st ps acc, cinv st ps acc ->
-    (length (ds_inbox (fst (interleaveN apps sched fuel st ps acc))) <= S inbox0)%nat /\
-    (length (downs (snd (interleaveN apps sched fuel st ps acc))) <= 1)%nat.
+    cpost (fst (interleaveN apps sched fuel st ps acc)) (snd (interleaveN apps sched fuel st ps acc)).
   Proof.
     induction fuel as [|fuel IH]; intros sched st ps acc Hinv; cbn [interleaveN]; [cbn [fst snd]; now apply (cinv_bound st ps)|].
     destruct (choose (hd 0%nat sched) ps) as [i|].
-    2:{ cbn [fst snd]. rewrite downs_app, (final_outs_quiet ps (cinv_harmless _ _ _ Hinv)), app_nil_r. now apply (cinv_bound st ps). }
+    2:{ cbn [fst snd]. pose proof (cinv_bound st ps acc Hinv) as P. unfold cpost in *. rewrite downs_app, (final_outs_quiet ps (cinv_harmless _ _ _ Hinv)), app_nil_r. exact P. }
     destruct (nth_error ps i) as [[o0 | o k]|] eqn:Ei; try (cbn [fst snd]; now apply (cinv_bound st ps)).
-    destruct Hinv as (Hfb & Hs & [(W & Hi & Hd) | (Hp & ii & kk & w & Hi & Hk & (pw & Hw & Lw) & Ho)]).
+    destruct Hinv as (Hfb & Hs & [(W & Hi & Hd) | [(Hp & W & Hi & Hd) | (Hp & ii & kk & w & Hi & Hk & (pw & Hw & Lw) & Ho)]]).
     - (* nobody has advanced the counter yet *)
       assert (Wi : prew (Do o k)) by (rewrite Forall_forall in W; apply W; eapply nth_error_In; exact Ei).
       pose proof (step_prew st o k Wi Hfb Hs) as S. destruct (exec apps st o) as [[st' r] e].
@@ -215,16 +227,25 @@ Section Copies.
         destruct (Nat.eq_dec j i) as [->|Hne].
         * rewrite (nth_replace_same i _ ps _ Ei) in Hj. injection Hj as <-. destruct (_ && _); [now constructor | exact W'].
         * rewrite (nth_replace_other i _ ps j Hne) in Hj. rewrite Forall_forall in W. apply W. eapply nth_error_In; exact Hj.
-      + split; [exact F'|]. split; [exact S'|]. right. split; [exact P'|]. exists 1%nat, 1%nat, i. rewrite app_nil_r, Hd, I'. cbn [length].
+      + split; [exact F'|]. split; [exact S'|]. right. right. split; [exact P'|]. exists 1%nat, 1%nat, i. rewrite app_nil_r, Hd, I'. cbn [length].
         split; [lia|]. split; [lia|]. split.
         * eexists. split; [apply (nth_replace_same i _ ps _ Ei)|]. destruct (_ && _); [now constructor | exact L'].
         * intros j p Hne Hj. rewrite (nth_replace_other i _ ps j Hne) in Hj. rewrite Forall_forall in W. apply W. eapply nth_error_In; exact Hj.
+    - (* the counter was accepted before: every compare-and-store fails *)
+      assert (Wi : prew (Do o k)) by (rewrite Forall_forall in W; apply W; eapply nth_error_In; exact Ei).
+      pose proof (step_prew_past st o k Wi Hfb Hs Hp) as S. destruct (exec apps st o) as [[st' r] e].
+      destruct S as (-> & I' & F' & S' & W' & P'). apply IH.
+      split; [exact F'|]. split; [exact S'|]. right. left. split; [exact P'|]. rewrite app_nil_r. split; [|split; [now rewrite I' | exact Hd]].
+      apply Forall_forall. intros p Hin. apply In_nth_error in Hin. destruct Hin as [j Hj].
+      destruct (Nat.eq_dec j i) as [->|Hne].
+      + rewrite (nth_replace_same i _ ps _ Ei) in Hj. injection Hj as <-. destruct (_ && _); [now constructor | exact W'].
+      + rewrite (nth_replace_other i _ ps j Hne) in Hj. rewrite Forall_forall in W. apply W. eapply nth_error_In; exact Hj.
     - destruct (Nat.eq_dec i w) as [->|Hne].
       + (* the handler whose compare-and-store succeeded *)
         rewrite Hw in Ei. injection Ei as ->.
         pose proof (step_lim st o k ii kk Lw Hfb Hs Hp) as S. destruct (exec apps st o) as [[st' r] e].
         destruct S as (F' & S' & P' & i' & k' & L' & Hi' & Hk'). apply IH.
-        split; [exact F'|]. split; [exact S'|]. right. split; [exact P'|]. exists i', k', w. rewrite downs_app, app_length.
+        split; [exact F'|]. split; [exact S'|]. right. right. split; [exact P'|]. exists i', k', w. rewrite downs_app, app_length.
         split; [lia|]. split; [lia|]. split.
         * eexists. split; [apply (nth_replace_same w _ ps _ Hw)|]. destruct (_ && _); [now constructor | exact L'].
         * intros j p Hj Hpj. rewrite (nth_replace_other w _ ps j Hj) in Hpj. eapply Ho; eauto.
@@ -232,12 +253,36 @@ Section Copies.
         assert (Wi : prew (Do o k)) by (eapply Ho; eauto).
         pose proof (step_prew_past st o k Wi Hfb Hs Hp) as S. destruct (exec apps st o) as [[st' r] e].
         destruct S as (-> & I' & F' & S' & W' & P'). apply IH.
-        split; [exact F'|]. split; [exact S'|]. right. split; [exact P'|]. exists ii, kk, w. rewrite app_nil_r, I'.
+        split; [exact F'|]. split; [exact S'|]. right. right. split; [exact P'|]. exists ii, kk, w. rewrite app_nil_r, I'.
         split; [exact Hi|]. split; [exact Hk|]. split.
         * exists pw. split; [|exact Lw]. rewrite (nth_replace_other i _ ps w); [exact Hw | congruence].
         * intros j p Hj Hpj. destruct (Nat.eq_dec j i) as [->|Hji].
           -- rewrite (nth_replace_same i _ ps _ Ei) in Hpj. injection Hpj as <-. destruct (_ && _); [now constructor | exact W'].
           -- rewrite (nth_replace_other i _ ps j Hji) in Hpj. eapply Ho; eauto.
+  Qed.
+
+  (* ... and when the counter had already been accepted before they started, nothing is recorded and nothing leaves *)
+  Definition cinv_past (st : dstate) (ps : list prog) (acc : list out) : Prop :=
+    fb_down st /\ strict st /\ past st /\ Forall prew ps /\ (length (ds_inbox st) <= inbox0)%nat /\ downs acc = [].
+  Theorem interleaveN_replays : forall fuel sched st ps acc, cinv_past st ps acc ->
+    fb_down (fst (interleaveN apps sched fuel st ps acc)) /\ strict (fst (interleaveN apps sched fuel st ps acc)) /\
+    past (fst (interleaveN apps sched fuel st ps acc)) /\
+    (length (ds_inbox (fst (interleaveN apps sched fuel st ps acc))) <= inbox0)%nat /\
+    downs (snd (interleaveN apps sched fuel st ps acc)) = [].
+  Proof.
+    induction fuel as [|fuel IH]; intros sched st ps acc (Hfb & Hs & Hp & W & Hi & Hd); cbn [interleaveN]; [cbn [fst snd]; auto|].
+    assert (Hh : Forall harmless_halt ps) by (eapply Forall_impl; [|exact W]; apply prew_halt).
+    destruct (choose (hd 0%nat sched) ps) as [i|].
+    2:{ cbn [fst snd]. rewrite downs_app, (final_outs_quiet ps Hh), app_nil_r. auto. }
+    destruct (nth_error ps i) as [[o0 | o k]|] eqn:Ei; try (cbn [fst snd]; auto).
+    assert (Wi : prew (Do o k)) by (rewrite Forall_forall in W; apply W; eapply nth_error_In; exact Ei).
+    pose proof (step_prew_past st o k Wi Hfb Hs Hp) as S. destruct (exec apps st o) as [[st' r] e].
+    destruct S as (-> & I' & F' & S' & W' & P'). apply IH.
+    split; [exact F'|]. split; [exact S'|]. split; [exact P'|]. rewrite app_nil_r. split; [|split; [now rewrite I' | exact Hd]].
+    apply Forall_forall. intros p Hin. apply In_nth_error in Hin. destruct Hin as [j Hj].
+    destruct (Nat.eq_dec j i) as [->|Hne].
+    - rewrite (nth_replace_same i _ ps _ Ei) in Hj. injection Hj as <-. destruct (_ && _); [now constructor | exact W'].
+    - rewrite (nth_replace_other i _ ps j Hne) in Hj. rewrite Forall_forall in W. apply W. eapply nth_error_In; exact Hj.
   Qed.
 
   (* ---- the uplink handler of a frame carrying c is such a program ---- *)
@@ -300,7 +345,11 @@ Theorem concurrent_copies_recorded_and_answered_once E D apps c :
                  (map (fun x => uplink_prog E D (fst (fst (fst x))) (snd (fst (fst x))) (snd (fst x)) (snd x)) copies) [] in
     (length (ds_inbox (fst res)) <= S (length (ds_inbox st)))%nat /\ (length (downs (snd res)) <= 1)%nat.
 Proof.
-  intros Hc copies Hall st r Hr Hs Hfb sched fuel. apply (interleaveN_copies E D apps c Hc (length (ds_inbox st))).
+  intros Hc copies Hall st r Hr Hs Hfb sched fuel.
+  cut (cpost c (length (ds_inbox st)) (fst (interleaveN apps sched fuel st (map (fun x => uplink_prog E D (fst (fst (fst x))) (snd (fst (fst x))) (snd (fst x)) (snd x)) copies) []))
+             (snd (interleaveN apps sched fuel st (map (fun x => uplink_prog E D (fst (fst (fst x))) (snd (fst (fst x))) (snd (fst x)) (snd x)) copies) []))).
+  { intros (_ & _ & A & B & _). cbv zeta. split; assumption. }
+  apply (interleaveN_copies E D apps c Hc (length (ds_inbox st))).
   split; [exact Hfb|]. split; [unfold strict; now rewrite Hr|]. left. split; [|split; [lia | reflexivity]].
   apply Forall_forall. intros p Hin. apply in_map_iff in Hin. destruct Hin as (x & <- & Hx).
   rewrite Forall_forall in Hall. apply uplink_prog_prew. now apply Hall.
@@ -694,3 +743,64 @@ Section Batches.
       rewrite Htot in Hroom. cbn [Nat.add] in Hroom. apply (IH (fst (l_create_downstream st m)) r G); auto. now rewrite L1.
   Qed.
 End Batches.
+
+(* ====================================================================================================== *)
+(* C03 / C09 over a whole history of redeliveries: batches of copies of one frame (each batch handled at the same
+   time under its own schedule, cut anywhere), one batch after the other: the frame is recorded at most once and
+   answered at most once in total. *)
+Section CopyBatches.
+  Variable E D : list N -> list N -> list N.
+  Variable apps : list N.
+  Variable c : N.
+  Hypothesis Hc : c < 65535.
+
+  Definition cbatch : Type := list (frame * rxpacket * nat * N) * list nat * nat.   (* the copies, the schedule, the cut *)
+  Definition cbatch_ok (b : cbatch) : Prop := Forall (fun x => fcnt (fst (fst (fst x))) = c) (fst (fst b)).
+  Definition cstep (st : dstate) (b : cbatch) : dstate * list out :=
+    interleaveN apps (snd (fst b)) (snd b) st
+      (map (fun x => uplink_prog E D (fst (fst (fst x))) (snd (fst (fst x))) (snd (fst x)) (snd x)) (fst (fst b))) [].
+  Fixpoint crun (st : dstate) (bs : list cbatch) : dstate * list out :=
+    match bs with
+    | [] => (st, [])
+    | b :: t => let r1 := cstep st b in let r2 := crun (fst r1) t in (fst r2, snd r1 ++ snd r2)
+    end.
+
+  Lemma progs_prew copies : Forall (fun x => fcnt (fst (fst (fst x))) = c) copies ->
+    Forall (prew c) (map (fun x => uplink_prog E D (fst (fst (fst x))) (snd (fst (fst x))) (snd (fst x)) (snd x)) copies).
+  Proof.
+    intros H. apply Forall_forall. intros p Hin. apply in_map_iff in Hin. destruct Hin as (x & <- & Hx).
+    rewrite Forall_forall in H. apply uplink_prog_prew. now apply H.
+  Qed.
+
+  (* once the counter is past c nothing more happens *)
+  Lemma crun_past n0 : forall bs st, Forall cbatch_ok bs -> fb_down st -> strict st -> past c st -> (length (ds_inbox st) <= n0)%nat ->
+    (length (ds_inbox (fst (crun st bs))) <= n0)%nat /\ downs (snd (crun st bs)) = [].
+  Proof.
+    induction bs as [|b t IH]; intros st Hok Hfb Hs Hp Hi; cbn [crun fst snd]; [auto|].
+    inversion Hok as [|? ? Hb Ht]; subst.
+    destruct (interleaveN_replays E D apps c Hc n0 (snd b) (snd (fst b)) st _ [] (conj Hfb (conj Hs (conj Hp (conj (progs_prew _ Hb) (conj Hi eq_refl))))))
+      as (F1 & S1 & P1 & I1 & D1).
+    destruct (IH (fst (cstep st b)) Ht F1 S1 P1 I1) as [I2 D2]. unfold cstep in *.
+    split; [exact I2|]. rewrite downs_app, D1, D2. reflexivity.
+  Qed.
+
+  Theorem copies_history : forall bs st r, Forall cbatch_ok bs -> ds_row st = Some r -> d_relaxed r = false -> fb_down st ->
+    (length (ds_inbox (fst (crun st bs))) <= S (length (ds_inbox st)))%nat /\ (length (downs (snd (crun st bs))) <= 1)%nat.
+  Proof.
+    intros bs st r Hok Hr Hrel Hfb.
+    assert (Hs : strict st) by (unfold strict; now rewrite Hr).
+    remember (length (ds_inbox st)) as n0 eqn:En.
+    assert (Hi : (length (ds_inbox st) <= n0)%nat) by lia. clear En Hr Hrel r.
+    revert st Hfb Hs Hi. induction bs as [|b t IH]; intros st Hfb Hs Hi; cbn [crun fst snd]; [cbn; lia|].
+    inversion Hok as [|? ? Hb Ht]; subst.
+    assert (Hinv : cinv c n0 st (map (fun x => uplink_prog E D (fst (fst (fst x))) (snd (fst (fst x))) (snd (fst x)) (snd x)) (fst (fst b))) []).
+    { split; [exact Hfb|]. split; [exact Hs|]. left. split; [now apply progs_prew|]. split; [exact Hi | reflexivity]. }
+    destruct (interleaveN_copies E D apps c Hc n0 (snd b) (snd (fst b)) st _ [] Hinv) as (F1 & S1 & I1 & D1 & [[I1' D1'] | P1]).
+    - (* nothing has happened: the next batch starts as this one did *)
+      destruct (IH Ht (fst (cstep st b)) F1 S1 I1') as [I2 D2]. unfold cstep in *.
+      split; [exact I2|]. rewrite downs_app, D1'. exact D2.
+    - (* the counter is past c: the rest of the history does nothing *)
+      destruct (crun_past (S n0) t (fst (cstep st b)) Ht F1 S1 P1 I1) as [I2 D2]. unfold cstep in *.
+      split; [exact I2|]. rewrite downs_app, D2, app_nil_r. exact D1.
+  Qed.
+End CopyBatches.
